@@ -158,6 +158,25 @@ func KBCorpus() []KBSpec {
 			Progs: [][]KReq{{{Op: OpDelete, Key: 0, Sym: SymCorrect}}},
 			Pick:  FixedPick([][2]int{{0, 0}, {0, 0}, {0, 0}, {1, 0}, {1, 0}})},
 	)
+	// lost-update interleavings (each runs on every engine)
+	cs = append(cs,
+		KBSpec{Note: "unconditional delete reads R and is dealt d, an update naming R is dealt u > d and commits first: the delete's compare-and-swap against R must fail",
+			Init: []int{InitLive}, Fix: kbFix,
+			Progs: [][]KReq{{{Op: OpDelete, Sym: SymZero}}, {{Op: OpUpdate, Val: v("u"), Sym: SymCorrect}}},
+			Pick:  FixedPick([][2]int{{0, 0}, {0, 0}, {1, 0}, {1, 0}, {0, 0}, {0, 0}})},
+		KBSpec{Note: "guarded delete naming R is dealt d, an update naming R is dealt u > d and commits first",
+			Init: []int{InitLive2}, Fix: kbFix,
+			Progs: [][]KReq{{{Op: OpDelete, Sym: SymCorrect}}, {{Op: OpUpdate, Val: v("u"), Sym: SymCorrect}}},
+			Pick:  FixedPick([][2]int{{0, 0}, {0, 0}, {1, 0}, {1, 0}, {0, 0}, {0, 0}})},
+		KBSpec{Note: "two updates naming the same revision, the later-dealt one commits first",
+			Init: []int{InitLive}, Fix: kbFix,
+			Progs: [][]KReq{{{Op: OpUpdate, Val: v("a"), Sym: SymCorrect}}, {{Op: OpUpdate, Val: v("b"), Sym: SymCorrect}}},
+			Pick:  FixedPick([][2]int{{0, 0}, {1, 0}, {1, 0}, {0, 0}, {0, 0}})},
+		KBSpec{Note: "guarded delete commits between the deal and the batch of an update naming the same revision; then a create over the tombstone",
+			Init: []int{InitLive}, Fix: kbFix,
+			Progs: [][]KReq{{{Op: OpUpdate, Val: v("a"), Sym: SymCorrect}, {Op: OpCreate, Val: v("c")}}, {{Op: OpDelete, Sym: SymCorrect}}},
+			Pick:  FixedPick([][2]int{{0, 0}, {1, 0}, {1, 0}, {1, 0}, {0, 0}, {0, 0}})},
+	)
 	return append(cs, []KBSpec{
 		{Note: "two creators on one absent key, commits interleaved",
 			Init: []int{InitNever}, Fix: kbFix,
@@ -237,6 +256,9 @@ func KBDrive(w *Writer, args Args, prof KBProfile) {
 		}
 		if !c.MarkerVisible && !c.Stalled {
 			w.Fail(ImplFailure{CaseID: w.Len(), What: "a create acknowledged at quiescence is not returned by List(0)", Case: c.JSON()})
+		}
+		for _, pf := range c.ProbeFailures {
+			w.Fail(ImplFailure{CaseID: w.Len(), What: "follow-up probe after the schedule: " + pf, Case: c.JSON()})
 		}
 		if !c.MarkerWatched && !c.Stalled {
 			w.Fail(ImplFailure{CaseID: w.Len(), What: "a create acknowledged at quiescence never reached a watcher on its prefix", Case: c.JSON()})
